@@ -17,6 +17,7 @@ mod isaeng;
 mod memeng;
 mod refmodel;
 mod refverif;
+mod schedeng;
 mod text;
 mod transcript;
 mod vm;
@@ -38,6 +39,7 @@ fn run_engine(prop: &str, s: &mut Sink) {
         "C08" => callseng::run_c08(s),
         "C09" => ctxeng::run(s),
         "C10" => apieng::run(s),
+        "C18" => schedeng::run(s),
         "C19" => helperseng::run(s),
         "C20" => dualeng::run(s),
         "C03" => isaeng::run(s, vm::Eng::Jit),
@@ -69,6 +71,7 @@ pub fn replay_value(rp: &Value) -> Vec<String> {
         "local-call" => callseng::replay_c07(rp),
         "helper" => helperseng::replay(rp),
         "dual" => dualeng::replay(rp),
+        "sched" | "xadd-seq" => schedeng::replay(rp),
         "verify" => byteseng::replay_verify(rp),
         "interp-total" => byteseng::replay_interp_total(rp),
         "compile-total" => byteseng::replay_compile_total(rp),
